@@ -46,6 +46,7 @@ MAXES = [0, 64, 128, 1024, 16384, 65536]
 MODES = ['storage-dir', 'storage-dir', 'tempfile', 'memory']
 
 _watch = {'dirs': [], 'hits': []}
+_pre = {}        # storage directory -> names that were in it before the server started
 _hook_installed = []
 
 
@@ -176,6 +177,7 @@ def run_case(res, case, sigs, attempt=0):
     workdir = tempfile.mkdtemp(prefix='vf-c15-')
     storage_dir = os.path.join(workdir, 'store')
     os.mkdir(storage_dir)
+    _pre[storage_dir] = set()
     received = []            # what the handler saw
     lock = threading.Lock()
     # concurrent senders negotiate different transfer syntaxes (same context id on every association)
@@ -184,8 +186,23 @@ def run_case(res, case, sigs, attempt=0):
     for k in range(nstores):
         size = r.choice([5, chunk - 1, chunk, chunk + 1, 3 * chunk + 2, min(40 * chunk, 200000)])
         size = max(1, min(size, 200000))
+        if client_max == 0 and server_max == 0 and k == 0 and r.random() < 0.5:
+            size = 1600000           # one P-DATA-TF of more than a MiB (no limit on either side)
         inst = '1.2.826.55.%d.%d' % (i, 0 if repeat_uid else k)
         datasets.append(make_dataset(r, '%d^%d' % (i, k), size, sop_class, inst))
+
+    snaps = []
+    if mode == 'storage-dir' and repeat_uid and r.random() < 0.5:
+        # the directory already holds this instance (and a duplicate of it) from an earlier run of
+        # the server: what is there stays as it is
+        for name in ('1.2.826.55.%d.0.dcm' % i, '1.2.826.55.%d.0.dcm_1' % i):
+            with open(os.path.join(storage_dir, name), 'wb') as f:
+                f.write(b'stored by an earlier server process: ' + name.encode())
+            _pre[storage_dir].add(name)
+        res.count('sim.directory-not-empty-at-start')
+        if concurrent:
+            snaps.append(snapshot(storage_dir))
+    forwarding = mode != 'memory' and r.random() < 0.3
 
     def handler(self, context, ds):
         with lock:
@@ -221,7 +238,6 @@ def run_case(res, case, sigs, attempt=0):
     Server = type('Server', (tcpnet.TapServerMixin, base), {'on_receive_store': handler})
     error = None
     returned = []
-    snaps = []
     _watch['dirs'].append(storage_dir)
     hits_before = len(_watch['hits'])
     inj = {}
@@ -239,6 +255,9 @@ def run_case(res, case, sigs, attempt=0):
                 if mode == 'memory':
                     server.add_scp(memory_scp([svc.CT, svc.MR]))
                 else:
+                    if forwarding:
+                        # a forwarding node: the same classes are also sent on (SCU role, registered first)
+                        server.add_scu(sopclass.storage_scu, [svc.CT, svc.MR])
                     server.add_scp(sopclass.storage_scp)
                 with tcpnet.serving(server):
                     remote = {'aet': 'STORESCP', 'address': '127.0.0.1', 'port': server.port}
@@ -409,9 +428,11 @@ def judge(res, case, where, error, datasets, received, returned, outcomes, snaps
         return
     res.count('oracle.directory-conservation')
     final = snaps[-1] if snaps else {}
-    if len(final) != len(datasets):
+    pre = _pre.get(storage_dir, set())
+    if len(final) != len(datasets) + len(pre):
         res.violation('stored-file-count', 'C15.directory', '%s: %d files in the storage directory after %d '
-                      'stores: %r' % (where, len(final), len(datasets), sorted(final)), case)
+                      'stores (%d were there before): %r' % (where, len(final), len(datasets), len(pre),
+                                                             sorted(final)), case)
     for a, b in zip(snaps, snaps[1:]):
         changed = [n for n in a if b.get(n) != a[n]]
         if changed:
@@ -424,6 +445,8 @@ def judge(res, case, where, error, datasets, received, returned, outcomes, snaps
             break
     # every stored file is a readable Part-10 file holding one of the data sets sent
     for name in sorted(final):
+        if name in pre:
+            continue
         try:
             d = pydicom.dcmread(os.path.join(storage_dir, name))
             ok = canon(d) in sent
